@@ -77,7 +77,7 @@ func generate() {
 		board, named bool
 	}
 	adms := []adm{{false, false}, {true, false}, {false, true}}
-	if thorough && !bbsLayer {
+	if thorough {
 		polices = append(polices, P(ptttype.PERM_POLICE_MAN))
 		userBM = append(userBM, P(ptttype.PERM_BM))
 		levels = append(levels, P(ptttype.PERM_BM), bitHas|bitLacks)
@@ -100,6 +100,9 @@ func generate() {
 					for _, basic := range basics {
 						for _, loginok := range loginoks {
 							for _, over18 := range []bool{false, true} {
+								if sysop != 0 && !thorough && (police != 0 || basic == 0 || loginok == 0) {
+									continue // quick tier: the sysop short-cut is crossed with the other user facts in thorough only
+								}
 								ulevel := sysop | police | ubm | basic | loginok | bitHas
 								if ad.board {
 									ulevel |= P(ptttype.PERM_BOARD)
@@ -114,7 +117,7 @@ func generate() {
 														bmc: rel&1 != 0, friend: rel&2 != 0, named: ad.named}
 													emitRow(r, targetLists, -1)
 													if hide != 0 || thorough {
-														if thorough && !bbsLayer {
+														if thorough {
 															for k := range targetLists {
 																emitRow(r, targetLists, k)
 															}
@@ -185,7 +188,8 @@ func generate() {
 			emit(fmt.Sprintf("setb %d %d %d", bidTarget, attr, 0))
 			emit(fmt.Sprintf("setb %d %d %d", bidGroup, attr|A(ptttype.BRD_GROUPBOARD), bitLacks))
 			for _, pair := range [][2]ptttype.Bid{{bidPlain, bidTarget}, {bidTarget, bidPlain}, {bidGroup, bidTarget}, {bidTarget, bidGroup}, {bidTarget, bidTarget}, {bidPlain, bidPlain}} {
-				for _, e := range readEntries {
+				for k := range readEntries {
+					e := readEntries[(k+4)%len(readEntries)] // ReadPost first
 					emit(fmt.Sprintf("xread %s %d %d %d 0 %d 0 0 0", e, pair[0], pair[1], ulevel, uidReader))
 				}
 			}
@@ -197,11 +201,8 @@ func generate() {
 	if thorough {
 		nrand = 20000
 	}
-	if bbsLayer {
-		nrand = 1500
-		if !thorough {
-			nrand = 300
-		}
+	if bbsLayer && !thorough {
+		nrand = 300
 	}
 	interesting := []uint32{P(ptttype.PERM_BASIC), P(ptttype.PERM_LOGINOK), P(ptttype.PERM_BM), P(ptttype.PERM_BOARD), P(ptttype.PERM_SYSOP),
 		P(ptttype.PERM_POLICE), P(ptttype.PERM_POLICE_MAN), P(ptttype.PERM_POST), P(ptttype.PERM_ANGEL), P(ptttype.PERM_NOCITIZEN)}
@@ -282,9 +283,11 @@ func generate() {
 	}
 	emit(good)
 
-	run.Exhaust = true
+	// the complete cross product of the table's facts is enumerated in thorough; quick slices the sysop rows (and, on
+	// the bbs layer, the unregistered / police callers)
+	run.Exhaust = thorough
 	run.Extra["table_rows"] = nrows
-	run.Rule = "exhaustive decision table on layer " + *layer + ": sysop x police{none,POLICE" + map[bool]string{true: ",POLICE_MAN", false: ""}[thorough && !bbsLayer] +
+	run.Rule = "decision table (exhaustive in every fact for non-sysop callers; the sysop short-cut crossed with the other user facts in thorough) on layer " + *layer + ": sysop x police{none,POLICE" + map[bool]string{true: ",POLICE_MAN", false: ""}[thorough] +
 		"} x administers{none,PERM_BOARD,named BM} x basic x login-ok x adult x board{hide,postmask,over18} x required level{0, a bit the user has, a bit the user lacks, PERM_BM|lacking} x " +
 		"moderator-cache x friend-file, each row materialised in the shared board cache / BM cache / visable file and driven through all 6 read entry points and all listing/summary functions, " +
 		"read-first and (hidden boards) listing-first; + the class listing on a group/symbolic board; + non-account uids; + random 32-bit level/attribute words; + invalid board ids and a malformed op stream. " +
